@@ -366,3 +366,46 @@ def roundtrip_harnesses(rep, tier):
         T.append(lambda ph=ph: roundtrip_harness(rep, p, False, ph, "msg"))
     T.append(lambda: roundtrip_harness(rep, p, True, True, "ctx"))
     return T
+
+# ---- C02 / C06: hash-to-scalar and hash-to-group glue (Scalar::hash_from_bytes / from_hash, RistrettoPoint::hash_from_bytes / from_hash)
+def hashmap_harness(rep, paths, which, streamed):
+    t0 = time.time()
+    ty = "Scalar" if which == "sc" else "RistrettoPoint"
+    nm = "%s::%s::<Sha512>" % (ty, "from_hash" if streamed else "hash_from_bytes")
+    rec = dict(harness="serial64/%s is %s of the digest of the input" % (nm, "from_bytes_mod_order_wide" if which == "sc" else "from_uniform_bytes"), config="serial64", function=nm, goals=[],
+               bounds="5 symbolic message bytes (streamed variant: 2 + 3), all SHA-512 outputs (64 symbolic bytes)",
+               assumptions=["SHA-512 uninterpreted", "Scalar::from_bytes_mod_order_wide (C02) / RistrettoPoint::from_uniform_bytes (C06) per their own harnesses"])
+    def goal(g, ok, kind="structural"): rec["goals"].append(dict(goal=g, verdict="unsat" if ok else "sat", solver_s=0.0, cases=1, solver_calls=0, kind=kind, nontrivial=True))
+    try:
+        mod = linked(paths); it = PSym(mod); uni = []
+        def from_uniform(it_, a, name):
+            uni.append(it_.cells(a[1], 64)); return it_.put(a[0], G.base("MAP"), 4 * it_.fs)
+        it.intercept.insert(0, (r'^curve25519_dalek::ristretto::RistrettoPoint::from_uniform_bytes$', from_uniform))
+        mb = [it.ctx.input("m%d" % k, 0, 255) for k in range(5)]
+        def buf(name, bs):
+            r_ = it.new_region(name, max(len(bs), 1))
+            for k, c in enumerate(bs): it.store(Ptr(r_.r, k), c, 1)
+            return r_
+        out = it.new_region("out", 32 if which == "sc" else 4 * it.fs)
+        hook = {("sc", False): "vp_sc_hash_from_bytes", ("sc", True): "vp_sc_from_hash", ("ris", False): "vp_ris_hash_from_bytes", ("ris", True): "vp_ris_from_hash"}[(which, streamed)]
+        fn = _fn(mod, r"8hashmaps%d%s17h" % (len(hook), hook))
+        if streamed: it.call(fn, [buf("m1", mb[:2]), Poly.const(2), buf("m2", mb[2:]), Poly.const(3), out])
+        else: it.call(fn, [buf("m", mb), Poly.const(5), out])
+        same = lambda cs, want: len(cs) == len(want) and all(c is not None and isinstance(c[0], Poly) and c[0].t == w.t for c, w in zip(cs, want))
+        goal("SHA-512 is computed once, over exactly the input bytes in order", len(it.hash_inputs) == 1 and same(it.hash_inputs[0], mb))
+        if which == "sc":
+            sv = it.regions[out.r].b.get(0)
+            goal("the result is from_bytes_mod_order_wide of the 64 digest bytes (and of nothing else)", it.wide == [0] and sv is not None and isinstance(sv[0], SVal) and (it.ctx.resolve(sv[0].p) - Poly.var("w0")).is_zero())
+        else:
+            goal("the result is from_uniform_bytes of the 64 digest bytes", len(uni) == 1 and bool(it.hbytes) and same(uni[0], it.hbytes[0]) and it.get(out).eq(G.base("MAP")))
+        rec["status"] = "ok" if all(g["verdict"] == "unsat" for g in rec["goals"]) else "violation"
+        if rec["status"] != "ok": rec["why"] = [g["goal"] for g in rec["goals"] if g["verdict"] != "unsat"][0]
+    except Unsupported as e:
+        rec["status"] = "inconclusive"; rec["why"] = "unsupported IR: " + str(e)[:400]
+    except PanicReached as e:
+        rec["status"] = "violation"; rec["why"] = "panic reached: " + str(e)[:200]
+    rec["wall_s"] = round(time.time() - t0, 3)
+    rep.add(**rec); rep.functions.add(nm); rep.configs.add("serial64")
+
+def hashmap_harnesses(rep, tier, which):
+    p = _paths(); return [lambda s=s: hashmap_harness(rep, p, which, s) for s in (False, True)]
